@@ -65,6 +65,14 @@ def c_placed(ctx, args):
         prog.append([0, [[free[-1]], [2, 0]]])                 # a Hadamard on another qubit: same layer, commutes
         U = place1(U1[0], free[-1], N) @ U
     c = NPm.build_circuit(N, prog, cls='Circuit' if mode == 'general' else 'CliffordCircuit')
+    if neighbour:
+        # somebody asks the gates for the inverse of their tables and goes on working with what they got (in place): the gates must not be affected
+        for ly in c.layers_forward():
+            for g_ in getattr(ly, 'gates', []):
+                if g_.forward_map is not None:
+                    t_ = g_.forward_map.inverse()
+                    t_.rotate_by(NPm.P([[1, 0] * g_.n, 0]))
+                    t_.ps[0] = (int(t_.ps[0]) + 2) % 4
     if mode == 'layers':
         for ly in c.layers_forward():
             if hasattr(ly, 'compile'):
